@@ -3,6 +3,7 @@ import Svgbob.Model.Front
 import Svgbob.Model.Doc
 import Svgbob.Model.Pipeline
 import Svgbob.Model.Shell
+import Svgbob.Model.Convert
 import Svgbob.Spec.Xml
 /-!
 Line-protocol driver for the executable model. `svgbob_model <mode>` reads one case per line
@@ -313,13 +314,15 @@ def handle (mode : String) (fields : List String) : String :=
     | none => "panic"
     | some (fs, gs) => "frags=" ++ showFrags fs ++ " groups=" ++ showGroups gs
   | "full", [pretty, cfgTok, css0, inp, env] =>
-    let fo := front (parseEnv env) (unhex inp)
-    match midOf (parseEnv env) fo.cells fo.escaped with
+    -- the whole conversion of the model (`Model/Convert.convertDoc`, the function the end-to-end
+    -- theorems are about), serialized
+    match theCatalogue with
     | none => "panic"
-    | some (fs, gs) =>
+    | some cat =>
       let cfg := pCfg cfgTok (unhex css0)
-      let root := svgRoot (segColumns (parseEnv env)) cfg fo.cells fo.css fs gs
-      "ok " ++ hexOfChars (Node.render cfg.den (pretty == "pretty") 0 root)
+      match convertDoc (parseEnv env) cfg cat (unhex inp) with
+      | none => "panic"
+      | some root => "ok " ++ hexOfChars (Node.render cfg.den (pretty == "pretty") 0 root)
   | "css", [sc, sw, bg, fill, ff, fs] =>
     -- the base style sheet from the regenerated rules and the settings as the code prints them
     hexOfChars (renderRules { strokeColor := unhex sc, strokeWidth := unhex sw, background := unhex bg,
